@@ -97,10 +97,13 @@ SurvivesShutdown == cur = NoCur =>
 \* what today's rebuild achieves: an entry is lost when slots of an earlier edition of the same URL are still on the disk
 \* (eviction does not wipe slots; useNewSlot() treats them as duplicates of the loaded entry and drops both)
 StaleSameKey(o) == \E s \in 0..(N - 1) : disk[s].t = "H" /\ disk[s].key = o /\ s \notin SeqSet(stores[cache[o]].slots)
+StaleIntruder(o) == \E s \in 0..(N - 1) : disk[s].t = "H" /\ disk[s].key # o /\ disk[s].next \in SeqSet(stores[cache[o]].slots)
 SurvivesShutdownUpToStale == cur = NoCur =>
              LET out == Restart IN
              \A o \in 1..Objs : cache[o] # 0 =>
                 \/ StaleSameKey(o)
-                \/ ("own" \notin Fix /\ \E i \in 1..Len(out.ent) : out.ent[i].key # o /\ ForeignSlot(Image, out.ent[i])) \* F6c
+                \* F6c of C57: a stale slot of another (evicted) URL still points into o's chain; its walk steals the slot or
+                \* (failing) leaves its `finalized` mark there, and o's own walk then fails
+                \/ (~({"own", "undo"} \subseteq Fix) /\ StaleIntruder(o))
                 \/ \E i \in 1..Len(out.ent) : out.ent[i].key = o /\ Servable(out.ent[i]) /\ Content(out.ent[i]) = WholeStore(cache[o])
 ====
